@@ -643,7 +643,7 @@ var origWD string
 // runVerify materialises the scenario and calls the library once.  `reuse` (C10 histories) is handled by verifyHistory.
 func materialise(a map[string]any) (layoutPath, linkDir, prodDir, marker string) {
 	base := filepath.Join(scratch(), "scn")
-	os.RemoveAll(base)
+	safeRemoveAll(base)
 	os.MkdirAll(base, 0o755)
 	layoutPath = filepath.Join(base, "root.layout")
 	os.WriteFile(layoutPath, []byte(str(a["layout_text"])), 0o644)
@@ -653,12 +653,12 @@ func materialise(a map[string]any) (layoutPath, linkDir, prodDir, marker string)
 	} else {
 		os.MkdirAll(linkDir, 0o755)
 	}
-	marker = str(a["marker"])
+	marker = checkedMarker(str(a["marker"]))
 	os.Remove(marker)
 	// product directory
 	if str(a["entry"]) == "withdir" {
-		prodDir = str(a["rundir"])
-		os.RemoveAll(prodDir)
+		prodDir = checkedRunDir(str(a["rundir"]))
+		safeRemoveAll(prodDir)
 		switch str(a["rundir_state"]) {
 		case "missing":
 		case "notdir":
@@ -685,14 +685,14 @@ func materialise(a map[string]any) (layoutPath, linkDir, prodDir, marker string)
 // materialiseProducts (re)creates only the product directory and clears the marker.
 func materialiseProducts(a map[string]any) (layoutPath, linkDir, prodDir, marker string) {
 	base := filepath.Join(scratch(), "scn")
-	marker = str(a["marker"])
+	marker = checkedMarker(str(a["marker"]))
 	os.Remove(marker)
 	if str(a["entry"]) == "withdir" {
-		prodDir = str(a["rundir"])
+		prodDir = checkedRunDir(str(a["rundir"]))
 	} else {
 		prodDir = filepath.Join(base, "products")
 	}
-	os.RemoveAll(prodDir)
+	safeRemoveAll(prodDir)
 	st := str(a["rundir_state"])
 	if str(a["entry"]) == "withdir" && st == "missing" {
 		return
@@ -706,7 +706,7 @@ func materialiseProducts(a map[string]any) (layoutPath, linkDir, prodDir, marker
 		}
 	}
 	// the working directory of a with-directory run collects the inspection links: clear it too
-	os.RemoveAll(filepath.Join(scratch(), "cwd"))
+	safeRemoveAll(filepath.Join(scratch(), "cwd"))
 	return
 }
 
